@@ -38,6 +38,32 @@ func vMkSchemas(s int) []client.SchemaDescription {
 	return out
 }
 
+// vMkSchemasFixed builds a given shape: "A:B,A,X|B:A|C:Y" = schema A with relations to B, A and the undefined
+// type X, ... (single-letter names)
+func vMkSchemasFixed(spec string) []client.SchemaDescription {
+	var out []client.SchemaDescription
+	i := 0
+	for i < len(spec) {
+		sd := client.SchemaDescription{Name: string(spec[i])}
+		sd.Fields = append(sd.Fields, client.SchemaFieldDescription{Name: "name", Kind: client.FieldKind_NILLABLE_STRING, Typ: client.LWW_REGISTER})
+		i++
+		r := 0
+		for i < len(spec) && spec[i] != '|' {
+			if spec[i] == ':' || spec[i] == ',' {
+				i++
+				continue
+			}
+			sd.Fields = append(sd.Fields, client.SchemaFieldDescription{
+				Name: "rel" + string(rune('0'+r)), Kind: client.NewNamedKind(string(spec[i]), r%2 == 1), Typ: client.LWW_REGISTER})
+			r++
+			i++
+		}
+		i++
+		out = append(out, sd)
+	}
+	return out
+}
+
 func vCloneSchemas(in []client.SchemaDescription) []client.SchemaDescription {
 	out := make([]client.SchemaDescription, len(in))
 	for i := range in {
@@ -62,7 +88,13 @@ func vKindString(k client.FieldKind) string {
 // VerifH_C13_SchemaIDs — conf: s (number of schemas)
 func VerifH_C13_SchemaIDs() {
 	s := vConfInt("s")
-	base := vMkSchemas(s)
+	var base []client.SchemaDescription
+	if shape := vConfStr("shape"); shape != "" {
+		base = vMkSchemasFixed(shape)
+		s = len(base)
+	} else {
+		base = vMkSchemas(s)
+	}
 	run1 := vCloneSchemas(base)
 	// run 2 on a permutation of the definitions
 	rest := make([]int, s)
